@@ -85,6 +85,12 @@ add_parsed_row(kdump_ctx_t *ctx, struct attr_data *dir,
 	struct attr_data *attr;
 	kdump_status res;
 
+	/* A leading dot is not part of an attribute path. */
+	if (keylen && *key == '.')
+		return set_error(ctx, KDUMP_ERR_CORRUPT,
+				 "Invalid VMCOREINFO key '%.*s'",
+				 (int) keylen, key);
+
 	attr = lookup_dir_attr(ctx->dict, dir, "lines", 5);
 	if (!attr)
 		return set_error(ctx, KDUMP_ERR_NOKEY,
